@@ -60,6 +60,9 @@ type Proto struct {
 	Depth    int64
 	Redacts  string
 	Unsigned any
+	// AuthFrom, if set, selects the auth events with the real
+	// EventBuilder.AddAuthEvents (Auth is then ignored).
+	AuthFrom gmsl.AuthEventProvider
 }
 
 func Str(s string) *string { return &s }
@@ -90,6 +93,14 @@ func Build(ver gmsl.IRoomVersion, p Proto, ts time.Time, origin spec.ServerName,
 		eb.Content = spec.RawJSON(raw)
 	} else if err := eb.SetContent(c); err != nil {
 		return nil, err
+	}
+	if p.AuthFrom != nil {
+		if err := eb.AddAuthEvents(p.AuthFrom); err != nil {
+			return nil, err
+		}
+		if eb.AuthEvents == nil {
+			eb.AuthEvents = []string{}
+		}
 	}
 	if p.Unsigned != nil {
 		if err := eb.SetUnsigned(p.Unsigned); err != nil {
